@@ -15,6 +15,12 @@ def field_key(b, pl):
     if names and all(n is not None for n in names):
         base = b.base_of_place(pl)
         return tuple(str(x[1]) for x in base[1])
+    # a parameter of an async fn, captured by its coroutine (`force_create: bool` handed on to a helper): named by the debug info
+    if pl['l'] == 1 and b.raw.get('coroutine') and pl['p'] and pl['p'][0]['k'] == 'field' and all(p['k'] in ('field', 'deref') for p in pl['p']):
+        for u in b.raw.get('upvar_names') or []:
+            upl = u['pl']
+            if upl['l'] == 1 and upl['p'] and upl['p'][0]['k'] == 'field' and upl['p'][0].get('i') == pl['p'][0].get('i') and len([p for p in pl['p'] if p['k'] == 'field']) == 1:
+                return ('param', str(u['name']))
     return None
 
 
